@@ -905,7 +905,9 @@ class Molecule(UnitsManaged, Saveable, OpenSystem):
         if self.widths is None:
             return 0.0
         
-        return self.widths[transition[0], transition[1]]
+        # the setter converts to internal units
+        return self.convert_energy_2_current_u(
+                               self.widths[transition[0], transition[1]])
 
     
     def set_transition_dephasing(self, transition, deph):
@@ -1533,7 +1535,9 @@ class Molecule(UnitsManaged, Saveable, OpenSystem):
         
         
         """
-        return self.adiabatic_coupling[self.triangle.locate(state1,state2)]
+        # the setter converts to internal units
+        return self.convert_energy_2_current_u(
+                self.adiabatic_coupling[self.triangle.locate(state1,state2)])
         
 
 
